@@ -92,6 +92,17 @@ CHECKS = {
              "rounding.",
         note="Windows within 1e-9(1+|t|) of the threshold or 1e-9 of a bin edge are ignored and counted; for negative scores the table "
              "entry of either the truncated or the floored bin is accepted. Thread counts up to 4 (quick) / 16 (thorough)."),
+    "C14": dict(
+        technique="property-based testing (Hypothesis): differential against an independent numpy complete-score / convolution-null reference fed with the integerised similarity matrix, plus monotonicity and metamorphic relations",
+        category="exploration", design_ref="DESIGN.md §3 C14",
+        text="Stage A calls _integer_distances_and_histogram as tomtom() does and checks that the integer similarities lie in [0, "
+             "n_score_bins], are non-increasing in exact Euclidean distance and that the histogram equals the pooled counts. Stage B "
+             "recomputes from that matrix every alignment score over all relative offsets, the null pmf of each offset by convolving the "
+             "FULL pooled per-column pmfs, p = 1 - prod CDF(best-1) and the strand merge, and compares score (exact), offset/overlap/"
+             "strand (must attain the best score; ties tolerated) and p-value (1e-9 + 1e-6 rel). Generators include coarse-grid pools "
+             "with mass in score bin 0 and low-complexity pools with up to 200 score bins.",
+        note="n_target_bins=None; n_cache >= n_score_bins; pools in which some query column is equidistant from every target column are "
+             "refused by the implementation (division by the spread) and counted as rejected_by_sut."),
     "C15": dict(
         technique="property-based testing (Hypothesis) with a string round-trip / direct-slicing oracle + exhaustive small-scope enumeration",
         category="exploration", design_ref="DESIGN.md §3 C15",
